@@ -74,7 +74,7 @@ struct LaneChecker
     LaneChecker(Report &r, const char *p) : rep(r), prop(p) {}
 
     // run one kernel on W lane pairs
-    inline void run(const Kernel<V> &k, const uint64_t *a, const uint64_t *b, const char *family)
+    inline void run(const Kernel<V> &k, const uint64_t *a, const uint64_t *b, const char *family, int form = 0)
     {
         const int W = V::W;
         alignas(64) uint64_t xa[8], xb[8], o1[8], o2[8];
@@ -84,9 +84,25 @@ struct LaneChecker
             xb[i] = b[i];
         }
         typename V::reg ra = V::load(xa), rb = V::load(xb), r1 = V::load(xa), r2 = V::load(xb);
-        k.fn(r1, r2, ra, rb);
+        // call forms: 0 separate result register, 1 result register IS the first operand register, 2 result IS the second operand,
+        // 3 (two-register results) low half IS the first operand.  The library itself calls its kernels in place (add_avx(st0, st0, c0)).
+        switch (form)
+        {
+        case 0: k.fn(r1, r2, ra, rb); break;
+        case 1: r1 = ra; k.fn(r1, r2, r1, rb); break;
+        case 2: r1 = rb; k.fn(r1, r2, ra, r1); break;
+        default: r2 = ra; k.fn(r1, r2, r2, rb); break;
+        }
         V::store(o1, r1);
         V::store(o2, r2);
+        if (form == 0)
+        {
+            // the operand registers of a separate-result call must come back unchanged
+            alignas(64) uint64_t ba[8], bb[8];
+            V::store(ba, ra); V::store(bb, rb);
+            if (memcmp(ba, xa, W * 8) || memcmp(bb, xb, W * 8))
+                rep.violation(std::string(prop) + ":" + k.name + ":operand-register-modified", J().str("kernel", k.name).str("family", family).done());
+        }
         rep.evaluations += W;
         for (int i = 0; i < W; i++)
         {
@@ -119,8 +135,8 @@ struct LaneChecker
             }
             }
             if (!ok)
-                rep.violation(std::string(prop) + ":" + k.name + ":wrong-lane-value",
-                              J().str("kernel", k.name).str("family", family).i("lane", i).h("a", a[i]).h("b", b[i]).h("got", o1[i]).h("got2", o2[i]).h("expected", exp).done());
+                rep.violation(std::string(prop) + ":" + k.name + (form == 0 ? ":wrong-lane-value" : (form == 1 ? ":wrong-lane-value:result-is-first-operand" : (form == 2 ? ":wrong-lane-value:result-is-second-operand" : ":wrong-lane-value:low-half-is-first-operand"))),
+                              J().str("kernel", k.name).str("family", family).i("call_form", form).i("lane", i).h("a", a[i]).h("b", b[i]).h("got", o1[i]).h("got2", o2[i]).h("expected", exp).done());
         }
     }
 };
@@ -228,6 +244,7 @@ static void run_lanes(const vf::Args &args, Report &rep, const std::vector<Kerne
     uint64_t pa[8], pb[8];
     int fill = 0;
     uint64_t rot = 0;
+    uint64_t &inplace_calls = rep.counter("lane:in_place_call_forms");
     Rng crng(12345);
     auto flush = [&](const char *family) {
         if (fill == 0) return;
@@ -241,6 +258,16 @@ static void run_lanes(const vf::Args &args, Report &rep, const std::vector<Kerne
             uint64_t ca[8], cb[8];
             for (int i = 0; i < W; i++) { ca[i] = constrain(ra[i], k.ra, crng); cb[i] = constrain(rb[i], k.rb, crng); }
             lc.run(k, ca, cb, family);
+            // in-place forms on a rotating third of the packs
+            if ((rot + (&k - &K[0])) % 3 == 0)
+            {
+                bool two = k.out == INT128 || k.out == INT_HI_LO_72;
+                bool unary = k.math == M_SQR || k.math == M_CANON;
+                lc.run(k, ca, cb, family, 1);
+                if (!unary) lc.run(k, ca, cb, family, 2);
+                if (two) lc.run(k, ca, cb, family, 3);
+                inplace_calls++;
+            }
         }
         fill = 0;
     };
@@ -506,6 +533,26 @@ static void run_mat4(const vf::Args &args, Report &rep)
             El d2 = Goldilocks::dot_avx_a(a0, a1, a2, (El *)Ma);
             if (orc::canon(d2.fe) != edot) mat_fail(rep, prop, "dot_avx_a", MATFAM[fam], 0, 0, d2.fe, edot, s, 12, coef, 12);
         }
+        // the same kernels with the result register being one of the state registers (rotating which one)
+        {
+            int al = (int)(t % 3);
+#define ALIAS4(KN, FN, MP)                                                                                  \
+    do                                                                                                     \
+    {                                                                                                      \
+        __m256i x0 = a0, x1 = a1, x2 = a2;                                                                 \
+        if (al == 0) { FN(x0, x0, x1, x2, MP); c = x0; } else if (al == 1) { FN(x1, x0, x1, x2, MP); c = x1; } else { FN(x2, x0, x1, x2, MP); c = x2; } \
+        V4::store(got, c);                                                                                 \
+        for (int i = 0; i < 4; i++) if (orc::canon(got[i]) != e4[i]) mat_fail(rep, prop, KN ":result-is-a-state-register", MATFAM[fam], al, i, got[i], e4[i], s, 12, coef, 12); \
+    } while (0)
+            ALIAS4("spmv_avx_4x12", Goldilocks::spmv_avx_4x12, (El *)(Mu + off));
+            ALIAS4("spmv_avx_4x12_a", Goldilocks::spmv_avx_4x12_a, (El *)Ma);
+            if (m8) ALIAS4("spmv_avx_4x12_8", Goldilocks::spmv_avx_4x12_8, (El *)(Mu + off));
+            o_mmult_rows(e4, 4, sc, coef);
+            ALIAS4("mmult_avx_4x12", Goldilocks::mmult_avx_4x12, (El *)(Mu + off));
+            ALIAS4("mmult_avx_4x12_a", Goldilocks::mmult_avx_4x12_a, (El *)Ma);
+            if (m8) ALIAS4("mmult_avx_4x12_8", Goldilocks::mmult_avx_4x12_8, (El *)(Mu + off));
+            rep.cls("forms:result_register_is_state_register");
+        }
         // mmult 4x12
         o_mmult_rows(e4, 4, sc, coef);
         CHK4("mmult_avx_4x12", Goldilocks::mmult_avx_4x12(c, a0, a1, a2, (El *)(Mu + off)));
@@ -602,6 +649,24 @@ static void run_mat8(const vf::Args &args, Report &rep)
                 uint64_t ed = o_dot(sc[st], coef);
                 if (orc::canon(d[st].fe) != ed) mat_fail(rep, prop, "dot_avx512", MATFAM[fam], st, 0, d[st].fe, ed, s + 12 * st, 12, coef, 12);
             }
+        }
+        {
+            int al = (int)(t % 3);
+#define ALIAS8(KN, FN, NCO)                                                                                 \
+    do                                                                                                     \
+    {                                                                                                      \
+        __m512i x0 = a0, x1 = a1, x2 = a2;                                                                 \
+        if (al == 0) { FN(x0, x0, x1, x2, (El *)coef); c = x0; } else if (al == 1) { FN(x1, x0, x1, x2, (El *)coef); c = x1; } else { FN(x2, x0, x1, x2, (El *)coef); c = x2; } \
+        V8::store(got, c);                                                                                 \
+        for (int st = 0; st < 2; st++) for (int i = 0; i < 4; i++)                                         \
+            if (orc::canon(got[4 * st + i]) != e[st][i]) mat_fail(rep, prop, KN ":result-is-a-state-register", MATFAM[fam], st, i, got[4 * st + i], e[st][i], s + 12 * st, 12, coef, NCO); \
+    } while (0)
+            ALIAS8("spmv_avx512_4x12", Goldilocks::spmv_avx512_4x12, 12);
+            if (m8) ALIAS8("spmv_avx512_4x12_8", Goldilocks::spmv_avx512_4x12_8, 12);
+            for (int st = 0; st < 2; st++) o_mmult_rows(e[st], 4, sc[st], coef);
+            ALIAS8("mmult_avx512_4x12", Goldilocks::mmult_avx512_4x12, 48);
+            if (m8) ALIAS8("mmult_avx512_4x12_8", Goldilocks::mmult_avx512_4x12_8, 48);
+            rep.cls("forms:result_register_is_state_register");
         }
         for (int st = 0; st < 2; st++) o_mmult_rows(e[st], 4, sc[st], coef);
         CHK8("mmult_avx512_4x12", Goldilocks::mmult_avx512_4x12(c, a0, a1, a2, (El *)coef), 48);
